@@ -8,7 +8,7 @@ import vcommon
 IMPORTS = ["Base", "Harness", "Check_C13"]
 CHECK_FN = "check_C13"
 RULE = ("each generated input (snps: reference + alignment, both gap modes; variants: annotated genome + msa, GenBank or "
-        "GFF, --append-snps on/off, optional window; in 40% of them several sequences carry the same amino-acid change "
+        "GFF, --append-snps on/off, optional window whose bounds mostly sit exactly on a mutated position, two- or one-sided; in 40% of them several sequences carry the same amino-acid change "
         "through different codons) is run in per-sequence mode and in --aggregate mode with thresholds "
         "0, 1, an occurring frequency printed to full precision, and one just above it; the oracle recounts from the "
         "implementation's own per-sequence output: each distinct mutation once, frequency = count / number of query "
@@ -110,10 +110,29 @@ def generate(ctx):
         if rng.random() < 0.4:
             rows = same_aa_by_different_codons(rng, genome, feats, ref_row, rows)
         msa, recs = vcommon.build_msa(rng, ref_row, rows, refpos=rng.choice(["first", "middle"]))
-        annob = anno.render_genbank(genome, feats, rng) if suffix == "gb" else anno.render_gff(genome, feats)
+        annob = anno.render_genbank(genome, feats, rng) if suffix == "gb" else anno.render_gff(genome, feats, mix=rng)
         append = rng.random() < 0.5
-        win = rng.random() < 0.3
+        win = rng.random() < 0.5
         s, e = (rng.randint(1, len(genome) // 2), rng.randint(len(genome) // 2, len(genome))) if win else (-1, -1)
+        if win:
+            # window bounds ON a mutated position (or the first base of a codon that carries one): the bounds are inclusive
+            # in both writers, and one-sided windows
+            refpos, k = [], 0
+            for ch in ref_row:
+                k += ch != "-"
+                refpos.append(k)
+            hot = sorted({refpos[i] for r in rows for i, (a, b) in enumerate(zip(ref_row, r)) if a != b and refpos[i] >= 1})
+            hot += [ps[3 * (ps.index(p) // 3)] for f in feats for ps in [f.positions()] for p in hot if p in ps]
+            if hot and rng.random() < 0.7:
+                e = rng.choice(hot)
+                s = min(s, e)
+            if hot and rng.random() < 0.4:
+                s = rng.choice([h for h in hot if h <= e] or [s])
+            side = rng.random()
+            if side < 0.2:
+                s = -1
+            elif side < 0.35:
+                e = -1
         nseq = len(rows)
         c = rng.randint(1, nseq)
         thrs = sorted(set([0.0, 1.0, c / nseq, min(1.0, c / nseq + 1e-9)]))
@@ -139,7 +158,7 @@ def generate(ctx):
         genome, feats = anno.patch_stops(rng, genome, feats)
         if not feats:
             continue
-        annob = anno.render_genbank(genome, feats, rng) if suffix == "gb" else anno.render_gff(genome, feats)
+        annob = anno.render_genbank(genome, feats, rng) if suffix == "gb" else anno.render_gff(genome, feats, mix=rng)
         nq = rng.randint(3, 6)
         protos = [gen.mutate(rng, genome, p_sub=0.1, p_amb=0.0, p_gap=0.0, p_lower=0.0) for _ in range(2)]
         recs = []
